@@ -193,3 +193,24 @@ TEXT['C18'].update(
                'exhaustively enumerated over shapes but not proved - "other".',
     level_note='Assumed: _prehash is an uninterpreted key function, getargs / getargspec uninterpreted, copy.copy of the fallback, time.sleep / logger calls. Known findings: kwargs_support with **kwargs, cache key merging, set arguments.',
     technique='contract-based deductive verification (AST-generated VCs, ghost call counters, object heap for wrappers, z3/cvc5) + bounded run-time contract check')
+
+PROPS['C15'].update(level='other', explanation='Deductive (counted as proved, 94 obligations): frame / ownership obligations from the real AST - items_to_tree, tree_update, Dict.__add__, table_to_tree, '
+    'tree_items / keys / values, tree_getitem modify nothing (the base tree is copied branch-deep by _tree_copy before _tree_setitem writes into it); tree_keys and tree_values are the projections of '
+    'tree_items (three real recursive bodies on one symbolic tree, induction over the sum(...) segments); tree_getitem follows a path; _tree_setitem creates missing branches, keeps existing ones, writes '
+    'the leaf unless ignored and changes nothing off the path (heap of object ids). Bounded only: items_to_tree(tree_items(t)) == t, the merge specification, tree_update(t,t) / (t,{}), table round trips.')
+TEXT['C15'].update(
+    level_text='Mixed: non-destructiveness (the clause tests cannot check at all depths) is decided by the ownership analysis for all trees, and the projections / path operations are proved; the inverse '
+               'and merge laws are bounded - hence "other".',
+    level_note='Trusted: the ownership lattice with its transfer functions and the branch-copy promotion rule, induction schemata, list concatenation / sum axioms. Stated precondition: leaves written by '
+               '_tree_setitem are not branch-typed or the written paths are prefix-free. Assumed: in_ is a pure membership test.',
+    technique='contract-based deductive verification: ownership / frame analysis over the real AST + AST-generated VCs (z3/cvc5) + bounded run-time contract check')
+PROPS['C19'].update(level='other', explanation='Deductive (counted as proved, 157 obligations): linearity of iterator arguments in loops._wrapped / wrapped (every generator expression is consumed once, thanks to '
+    'args = tuple(args)) and their frames; loops._wrapped on dict / list / tuple / leaf: the result has the class and keys / length of the first argument, each element is the recursive result on the element '
+    'and the companions selected by key / index, a leaf is function(arg, *args, **kwargs) (recursion by contract with a measure); _item_by_i / _item_by_key exact; lens and zipper exact; as_list / as_tuple '
+    'exact summaries and idempotence (known finding carved out). Bounded only: the library functions built with loop on nestings to depth 4, waiter under every completion order (concurrency).')
+TEXT['C19'].update(
+    level_text='Mixed: the lifting recursion, the companion selection, zipper / lens and the normalisers are proved; schedule independence of waiter is concurrency and outside this family (bounded schedule '
+               'enumeration only) - hence "other".',
+    level_note='Trusted: ownership / linearity analysis, zip / set / list axioms. Assumed contracts: len0, is_iterable. Path precondition: no pandas / numpy values (loops.T excluded). Known findings: '
+               'unmatched companions are recursed into; as_tuple on a list holding one list.',
+    technique='contract-based deductive verification: linearity / frame analysis + AST-generated VCs (z3/cvc5) + bounded run-time contract check')
